@@ -58,6 +58,15 @@ def World.setIncomplete (w : World) (i : Option Incomplete) : World :=
 def World.setCodec (w : World) (codec : Codec) (t : Transport) : World :=
   { w with c := { w.c with codec := codec }, t := t }
 
+/-- `WebSocketContext::set_config`: the caller's closure edits the stored configuration, which must
+then pass `assert_valid` (a panic leaves the edited configuration behind); the codec's two sizes follow -/
+def World.setConfig (w : World) (f : Config → Config) : World × Res Unit :=
+  let cfg := f w.c.cfg
+  let w1 : World := { w with c := { w.c with cfg := cfg } }
+  if configValid cfg.maxw cfg.wbuf then
+    ({ w1 with c := { w1.c with codec := { w1.c.codec with maxOut := cfg.maxw, writeLen := cfg.wbuf } } }, .ok ())
+  else (w1, .panic .configInvalid)
+
 /-- `set_additional`: replace the pending frame only if the slot is empty or holds a pong -/
 def World.setAdditional (w : World) (add : Frame) : World :=
   match w.c.additional with
